@@ -115,6 +115,9 @@ func (c *VhConn) Execute(sql string, maxRows int) (*mysql.Result, error) {
 	if err := c.op("execute", sql); err != nil {
 		return nil, err
 	}
+	if c.AutoCommit == 0 {
+		c.InTx = true // with autocommit off every statement runs in a transaction
+	}
 	if c.Pool != nil && c.Pool.ExecResult != nil {
 		return c.Pool.ExecResult(c, sql)
 	}
@@ -126,6 +129,9 @@ func (c *VhConn) ExecuteWithTimeout(sql string, maxRows int, timeout time.Durati
 func (c *VhConn) SetAutoCommit(v uint8) error {
 	if err := c.op("autocommit", ""); err != nil {
 		return err
+	}
+	if v == 1 && c.AutoCommit == 0 {
+		c.InTx = false // MySQL commits the open transaction when autocommit goes from 0 to 1 (and only then)
 	}
 	c.AutoCommit = v
 	return nil
